@@ -192,7 +192,7 @@ def dump_tree(e):
     return [e.tag, [[k, v] for k, v in e.attrib.items()], e.text, e.tail, [dump_tree(k) for k in e]]
 
 
-def run_entry(entry, doc, enc=None):
+def run_entry(entry, doc, enc=None, how=None):
     """-> (kind, exc name, dumped tree | None); enc: the document reaches the entry point as bytes in that encoding
     through a binary handle (BOMs included) instead of as text"""
     import io
@@ -204,7 +204,28 @@ def run_entry(entry, doc, enc=None):
         d = os.path.join(WORK, f"w{os.getpid()}")
         os.makedirs(d, exist_ok=True)
         p = pathlib.Path(d) / "DiskDescriptor.xml"
-        p.write_text(doc)
+        bak = pathlib.Path(d) / "DiskDescriptor.xml.Backup"
+        if bak.exists():
+            bak.unlink()
+        if how == "swap":
+            # a harmless descriptor is read first; the file is then replaced by `doc` of the same size and timestamps
+            from dissect.hypervisor.disk.hdd import Descriptor
+            harmless = hostile("hdd", "benign")
+            harmless += "\n" * (len(doc.encode()) - len(harmless.encode()))
+            p.write_text(harmless)
+            st = p.stat()
+            for _ in range(2):
+                try:
+                    Descriptor(p)
+                except Exception:  # noqa: BLE001
+                    pass
+            p.write_text(doc + "\n" * (len(harmless.encode()) - len(doc.encode())))
+            os.utime(p, ns=(st.st_atime_ns, st.st_mtime_ns))
+        else:
+            p.write_text(doc)
+        if how == "backup":
+            # the previous (harmless) version of the descriptor that Parallels keeps next to it
+            bak.write_text(hostile("hdd", "benign"))
     _STATE["events"], _STATE["calls"], _STATE["trees"] = [], [], []
     _STATE["on"] = True
     try:
@@ -218,6 +239,9 @@ def run_entry(entry, doc, enc=None):
         elif entry == "pvs":
             from dissect.hypervisor.descriptor.pvs import PVS
             tree = PVS(handle)._xml
+        elif how == "backup":
+            from dissect.hypervisor.disk.hdd import HDD
+            tree = HDD(p.parent).descriptor.xml
         else:
             from dissect.hypervisor.disk.hdd import Descriptor
             tree = Descriptor(p).xml
@@ -276,6 +300,12 @@ class HostileSuite(Suite):
             for enc in ("utf-8", "utf-8-sig", "utf-16"):
                 for kind, n in (("internal-nested", 3), ("ext-general-file", 1), ("ext-dtd-file", 1), ("benign", 1)):
                     cases.append({"entry": entry, "kind": kind, "n": n, "enc": enc, "doc": hostile(entry, kind, n, 10)})
+        # the descriptor of a disk bundle: re-read after the file was replaced under the same size and timestamps, and
+        # opened through the bundle with the writer's backup copy next to it (every read of every file is hardened)
+        for how in ("swap", "backup"):
+            for kind, n in (("internal-nested", 3), ("internal-attr", 1), ("ext-general-file", 1), ("ext-dtd-file", 1),
+                            ("ext-param-file", 1), ("benign", 1)):
+                cases.append({"entry": "hdd", "kind": kind, "n": n, "how": how, "doc": hostile("hdd", kind, n, 10)})
         # the hardened parser is not optional: with defusedxml unimportable the entry points must not fall back to a
         # parser that expands entities (a fresh interpreter per entry point)
         for entry in ENTRY_MODULE:
@@ -302,7 +332,7 @@ class HostileSuite(Suite):
         t0 = time.time()
         if case["kind"] == "no-defusedxml":
             return self.impl_nodefused(case)
-        kind, exc, tree = run_entry(case["entry"], case["doc"], case.get("enc"))
+        kind, exc, tree = run_entry(case["entry"], case["doc"], case.get("enc"), case.get("how"))
         out = {"kind": kind, "exc": exc, "events": list(_STATE["events"]), "calls": list(_STATE["calls"]),
                "elapsed": round(time.time() - t0, 3), "leak": False, "expanded": False, "same_as_stdlib": None}
         if tree is not None:
@@ -363,7 +393,7 @@ class HostileSuite(Suite):
 
     def judge(self, case, impl_res, coq_val):
         entry, kind = case["entry"], case["kind"]
-        sig = f"xml:{entry}:{kind}"
+        sig = f"xml:{entry}:{kind}" + (f":{case['how']}" if case.get("how") else "")
         if impl_res.get("outcome"):
             return [Finding("impl_fault", f"{entry} entry point {impl_res['outcome']} on a {kind} document "
                             f"({impl_res.get('detail', '')})", sig + ":" + impl_res["outcome"])]
@@ -405,7 +435,7 @@ class HostileSuite(Suite):
 
     def nontrivial(self, case, impl_res, coq_val):
         if "<!DOCTYPE" in case["doc"]:
-            return core.sha((case["entry"] + case["doc"]).encode())
+            return core.sha((case["entry"] + case.get("how", "") + case["doc"]).encode())
         return None
 
     def dist(self, case):
